@@ -31,7 +31,9 @@ warnings.filterwarnings("ignore")
 from kmip.core import enums, exceptions as cexc, primitives, utils  # noqa: E402
 from kmip.core import attributes as cattr, misc as cmisc, objects as cobjects, secrets  # noqa: E402
 from kmip.core.factories.attributes import AttributeFactory  # noqa: E402
+from kmip.core import policy as core_policy  # noqa: E402
 from kmip.core.messages import contents, messages, payloads  # noqa: E402
+from kmip.services.server import engine as engine_mod  # noqa: E402  (module level: vcheck re-imports kmip later)
 from kmip.pie import exceptions as pexc  # noqa: E402
 from kmip.pie import objects as pobjects  # noqa: E402
 from kmip.pie.client import ProxyKmipClient  # noqa: E402
@@ -987,8 +989,6 @@ class EngineServer(object):
     """decode with the server decoder, process with a real KmipEngine, encode under the version the engine names"""
 
     def __init__(self, version, chunk=None, user="alice"):
-        from kmip.core import policy as core_policy
-        from kmip.services.server import engine as engine_mod
         quiet()
         self.dir = tempfile.mkdtemp(prefix="c19-")
         self.engine = engine_mod.KmipEngine(policies=copy.deepcopy(core_policy.policies),
@@ -1012,7 +1012,12 @@ class EngineServer(object):
             entry["decoded"] = False
             entry["error"] = "%s: %s" % (type(ex).__name__, str(ex)[:200])
             return []
-        response, _, pv = self.engine.process_request(req, (self.user, None))
+        try:
+            response, _, pv = self.engine.process_request(req, (self.user, None))
+        except Exception as ex:     # the session layer would answer with an error response; not modelled here
+            entry["engine_error"] = "%s: %s @ %s" % (type(ex).__name__, str(ex)[:200],
+                                                     traceback.extract_tb(ex.__traceback__)[-1][:3])
+            return []
         kv = contents.protocol_version_to_kmip_version(pv)
         s = utils.BytearrayStream()
         response.write(s, kmip_version=kv)
